@@ -38,7 +38,11 @@ from pydcop.utils.simple_repr import from_repr, simple_repr
 
 class VariableComputationNode(ComputationNode):
     def __init__(
-        self, variable: Variable, constraints: Iterable[Constraint], name: str = None
+        self,
+        variable: Variable,
+        constraints: Iterable[Constraint],
+        name: str = None,
+        order_links: Iterable["OrderLink"] = None,
     ) -> None:
         if name is None:
             name = variable.name
@@ -50,6 +54,15 @@ class VariableComputationNode(ComputationNode):
         super().__init__(name, "VariableComputationNode", links=links)
         self._variable = variable
         self._constraints = constraints
+        # The 'next' and 'previous' links are set by the graph (or when rebuilding
+        # the node from its simple_repr) ; like when the graph adds them, they are
+        # not used to compute the neighbors of the node.
+        self._order_links = list(order_links) if order_links is not None else []
+        self._links.extend(self._order_links)
+
+    def add_order_link(self, link: "OrderLink"):
+        self._order_links.append(link)
+        self._links.append(link)
 
     @property
     def variable(self):
@@ -174,9 +187,9 @@ class OrderedConstraintGraph(ComputationGraph):
 
         for n1, n2 in zip(sorted_nodes[:-1], sorted_nodes[1:]):
             # n1 next is n2
-            n1.links.append(OrderLink("next", n1.name, n2.name))
+            n1.add_order_link(OrderLink("next", n1.name, n2.name))
             # n2 prev is n1
-            n2.links.append(OrderLink("previous", n2.name, n1.name))
+            n2.add_order_link(OrderLink("previous", n2.name, n1.name))
 
 
 def build_computation_graph(
